@@ -29,7 +29,7 @@ EXHAUSTIVE = {'quick': False, 'thorough': True}
 
 
 # a class name, None = the harness's own Boom, an int = Boom raised that many call levels below call() (deep stacks)
-FAIL_CLASSES = [None, 'TimeoutError', 14, 'queue.Empty', 'KeyError', 40, 'MpTimeout', 'ConnectionResetError', 'EOFError', 3, 'LookupError', 'asyncio.QueueEmpty', 'BrokenPipeError']
+FAIL_CLASSES = [None, 'TimeoutError', 14, 'queue.Empty', 'KeyError', 40, 'MpTimeout', 'ConnectionResetError', 'EOFError', 3, 'LookupError', 'asyncio.QueueEmpty', 'BrokenPipeError', 'TwoArgInit']
 
 
 def shapes(tier):
@@ -152,7 +152,7 @@ def _async_classes(case):
 
     viol = []
     obs = {'lifetimes': 1, 'requests': 0, 'failed_requests': 0, 'ok_requests': 0, 'async_class_lifetimes': 1}
-    classes = [c for c in FAIL_CLASSES if c and not isinstance(c, int)] + ['StopIteration']
+    classes = [c for c in FAIL_CLASSES if c and not isinstance(c, int) and c != 'TwoArgInit'] + ['StopIteration']
     servlet = (ProcessServlet if case['leaf'] == 'P' else ThreadServlet)(ST.TagWorker, tag='A')
 
     async def main():
@@ -278,6 +278,14 @@ def run_case(case):
             y = outcomes[i]
             got = SH.norm_outcome(y)
             ok, exp = SH.judge_outcome(tree, t, got)
+            if not ok and any(a == 'fail' and arg == 'TwoArgInit' for _, a, arg in t[3]):
+                # a class that pickles but cannot be rebuilt (its constructor wants two arguments, args holds one string): where the failure
+                # crossed a process boundary the original class cannot arrive; it must still be an error for this request only, naming the class
+                r = repr(got)
+                if "'EXC', 'TwoArgInit'" in r or 'could not be rebuilt' in r:
+                    obs['unrebuildable_exceptions_delivered'] = obs.get('unrebuildable_exceptions_delivered', 0) + 1
+                    obs['failed_requests'] += 1
+                    continue
             should_fail = bool(t[3])
             if not ok:
                 if not should_fail and SH._is_exc_got(got):
